@@ -99,4 +99,37 @@ void vp_use2()
   REQUIRE_CALL(m, c(trompeloeil::re("a")));
 }
 
+
+// abstract operand matchers: declaration only.  Their matches() is a contract-only stub in the harnesses,
+// so each combinator is verified once against arbitrary operands (modular => any nesting depth).
+template <int K>
+struct vp_abs : trompeloeil::matcher {
+  bool matches(int const&) const;
+  friend std::ostream& operator<<(std::ostream& os, vp_abs const&) { return os; }
+};
+
+bool vp_combinators(int x, int* p, vp_S sv, char const* str)
+{
+  using namespace trompeloeil;
+  bool r = true;
+  r = param_matches(!vp_abs<1>{}, std::ref(x)) && r;
+  r = param_matches(*vp_abs<1>{}, std::ref(p)) && r;
+  r = param_matches(any_of(vp_abs<1>{}), std::ref(x)) && r;
+  r = param_matches(any_of(vp_abs<1>{}, vp_abs<2>{}), std::ref(x)) && r;
+  r = param_matches(any_of(vp_abs<1>{}, vp_abs<2>{}, vp_abs<3>{}), std::ref(x)) && r;
+  r = param_matches(all_of(vp_abs<1>{}, vp_abs<2>{}, vp_abs<3>{}), std::ref(x)) && r;
+  r = param_matches(none_of(vp_abs<1>{}, vp_abs<2>{}, vp_abs<3>{}), std::ref(x)) && r;
+  r = param_matches(any_of(7, vp_abs<1>{}), std::ref(x)) && r;
+  r = param_matches(any_of(), std::ref(x)) && r;
+  r = param_matches(all_of(), std::ref(x)) && r;
+  r = param_matches(none_of(), std::ref(x)) && r;
+  r = param_matches(eq(1), std::ref(x)) && param_matches(ne(1), std::ref(x)) && param_matches(lt(1), std::ref(x)) && r;
+  r = param_matches(le(1), std::ref(x)) && param_matches(gt(1), std::ref(x)) && param_matches(ge(1), std::ref(x)) && r;
+  r = param_matches(eq<int>(1), std::ref(x)) && param_matches(lt<int>(1), std::ref(x)) && r;
+  r = param_matches(_, std::ref(x)) && param_matches(ANY(int), std::ref(x)) && param_matches(5, std::ref(x)) && r;
+  r = param_matches(MEMBER_IS(&vp_S::m, vp_abs<1>{}), std::ref(sv)) && r;
+  r = param_matches(re("a"), std::ref(str)) && r;
+  return r;
+}
+
 } // namespace vp_trompeloeil
